@@ -3,6 +3,7 @@ package main
 // Symbolic interpreter for go/ssa.
 
 import (
+	"os"
 	"fmt"
 	"go/constant"
 	"go/token"
@@ -78,6 +79,7 @@ type VM struct {
 	fninfo  map[*ssa.Function]*fnInfo
 	intr    map[string]Intrinsic
 
+	watch      *loopWatch // a loop suspected of never ending (see loopProgress)
 	co         *coro // the goroutine (coroutine) executing right now; nil: main thread / thread 2
 	epoch      int
 	undo       []undoRec
@@ -307,6 +309,12 @@ func (vm *VM) callFunction(fn *ssa.Function, args []Value, env []Value) (ret Val
 		}
 	}
 	if in, ok := vm.lookupIntrinsic(fn); ok {
+		if vm.watch != nil && !pureIntrinsic(fn.String()) {
+			if os.Getenv("GOSYM_LOOPDBG") != "" {
+				fmt.Fprintf(os.Stderr, "LOOPDBG intrinsic %s\n", fn.String())
+			}
+			vm.watch.progress++ // a model with effects (or one not known to be pure) ran
+		}
 		return in(vm, fn, args)
 	}
 	if fn.Blocks == nil {
@@ -462,6 +470,9 @@ func (vm *VM) execFrom(fr *Frame, b *ssa.BasicBlock) Value {
 				fr.backEdges = map[int]int{}
 			}
 			fr.backEdges[next.Index]++
+			if !vm.inInit {
+				vm.loopProgress(fr, next.Index, fr.backEdges[next.Index])
+			}
 			if fr.backEdges[next.Index] > vm.cfg.Unwind && !vm.inInit {
 				panic(&engineError{msg: fmt.Sprintf("unwinding bound %d exceeded in %s (%s)", vm.cfg.Unwind, fr.fn, vm.where())})
 			}
@@ -1928,4 +1939,111 @@ func sortedKeys(m map[string]int) []string {
 	}
 	sort.Strings(ks)
 	return ks
+}
+
+
+// ---- loops that never end -------------------------------------------------------------------
+//
+// A loop of repository code that has gone round more than 8 times is watched.  If one whole
+// iteration then (a) consumes no decision and no nondeterministic value, (b) changes no object
+// that existed when the iteration began (writes to objects the iteration itself allocated do not
+// count, nor do writes that store the value that is already there), (c) runs no model with effects
+// - every intrinsic counts as one unless it is on the short list of pure ones, successful lock
+// operations and every file-system / channel operation count - and (d) arrives at the loop header
+// with the same local values, then the next iteration will do exactly the same: the operation
+// never completes.  That is reported as a violation (not as an exhausted unwinding bound).
+type loopWatch struct {
+	fr        *Frame
+	header    int
+	progress  int
+	watermark int // objects with a larger ID were allocated during the current iteration
+	pos       int
+	nondets   int
+	locals    string
+}
+
+func pureIntrinsic(name string) bool {
+	switch {
+	case strings.HasPrefix(name, "log/slog."), strings.HasPrefix(name, "strings."), strings.HasPrefix(name, "fmt.Sprint"),
+		strings.HasPrefix(name, "fmt.Errorf"), strings.HasPrefix(name, "errors."), strings.HasPrefix(name, "strconv."),
+		strings.HasPrefix(name, "internal/strconv."), strings.HasPrefix(name, "(time.Time)."), strings.HasPrefix(name, "(time.Duration)."),
+		strings.HasPrefix(name, "path/filepath.Join"), strings.HasPrefix(name, "path/filepath.Clean"):
+		return true
+	case strings.HasSuffix(name, ").Load"), strings.HasSuffix(name, ").TryLock"), strings.HasSuffix(name, ").TryRLock"),
+		strings.HasSuffix(name, ").Store"), strings.HasSuffix(name, ").Lock"), strings.HasSuffix(name, ").RLock"),
+		strings.HasSuffix(name, ").Unlock"), strings.HasSuffix(name, ").RUnlock"), strings.HasSuffix(name, ").Add"),
+		strings.HasSuffix(name, ").Swap"), strings.HasSuffix(name, ").CompareAndSwap"):
+		// sync / atomic models: the lock states are part of the per-iteration fingerprint, atomic
+		// stores go through the heap-write comparison
+		return strings.Contains(name, "sync")
+	case name == "maps.clone", name == "maps.Clone":
+		return true // allocates a new map, changes nothing that exists
+	case name == "time.Now", name == "time.Since", name == "time.Until":
+		return true // the clock model ticks itself when it hands out a new instant
+	}
+	return false
+}
+
+func (vm *VM) tickProgress() {
+	if vm.watch != nil {
+		vm.watch.progress++
+	}
+}
+
+func (vm *VM) localsFingerprint(fr *Frame) string {
+	var sb strings.Builder
+	// the state of every lock (lock operations are not "progress" by themselves: an iteration
+	// that takes and releases the same locks leaves them as they were)
+	keys := make([]string, 0, len(vm.P.locks))
+	for k := range vm.P.locks {
+		keys = append(keys, k)
+	}
+	sort.Strings(keys)
+	for _, k := range keys {
+		ls := vm.P.locks[k]
+		fmt.Fprintf(&sb, "%s:%v,%d,%d,%v|", k, ls.w, ls.r, ls.owner, ls.other)
+	}
+	for _, v := range fr.env {
+		if v == nil {
+			sb.WriteString("_;")
+			continue
+		}
+		sb.WriteString(showValue(v))
+		sb.WriteByte(';')
+	}
+	return sb.String()
+}
+
+func (vm *VM) loopProgress(fr *Frame, header int, count int) {
+	w := vm.watch
+	if w != nil && (w.fr != fr || w.header != header) {
+		// another loop's back edge: it belongs to the watched iteration (or the watched frame is gone)
+		alive := false
+		for f := vm.cur; f != nil; f = f.caller {
+			if f == w.fr {
+				alive = true
+			}
+		}
+		if alive {
+			return
+		}
+		vm.watch, w = nil, nil
+	}
+	if w == nil {
+		if count <= 8 || !fr.info.repoFunc || vm.P.curThread == 2 {
+			return
+		}
+		vm.watch = &loopWatch{fr: fr, header: header, watermark: vm.objCounter, pos: vm.P.pos, nondets: len(vm.P.nondets), locals: vm.localsFingerprint(fr)}
+		return
+	}
+	loc := vm.localsFingerprint(fr)
+	if os.Getenv("GOSYM_LOOPDBG") != "" {
+		fmt.Fprintf(os.Stderr, "LOOPDBG header %s#%d progress=%d pos %d->%d nondets %d->%d localsSame=%v\n", fr.fn.Name(), header, w.progress, w.pos, vm.P.pos, w.nondets, len(vm.P.nondets), w.locals == loc)
+	}
+	if w.progress == 0 && w.pos == vm.P.pos && w.nondets == len(vm.P.nondets) && w.locals == loc {
+		vm.P.Oblig++
+		vm.recordViolation("livelock.loop-without-progress", fmt.Sprintf("a whole iteration of the loop in %s changed nothing and decided nothing: it never ends", fr.fn), tTrue)
+		panic(&pathEnd{"livelock"})
+	}
+	w.progress, w.watermark, w.pos, w.nondets, w.locals = 0, vm.objCounter, vm.P.pos, len(vm.P.nondets), loc
 }
